@@ -206,7 +206,8 @@ unsafe fn to_vec_sse(vec: &UnalignedVector<BinaryQuantized>) -> Vec<f32> {
                 let mask = _mm_cmpeq_epi32(mask, _mm_setzero_si128());
                 let lane = _mm_blendv_ps(ones, minus, _mm_castsi128_ps(mask));
                 let offset = output_ptr.add(current_byte * 8 + i * 4);
-                _mm_store_ps(offset, lane);
+                // a Vec<f32> is only guaranteed to be 4-bytes aligned
+                _mm_storeu_ps(offset, lane);
             }
         }
     }
